@@ -737,6 +737,12 @@ def c07(case, impl):
     if bad:
         k, why = bad
         return f"line {k} does not parse as BASIC09: {why} | {lines[k].strip()[:400]}"
+    if flag(case, 5) and not flag(case, 6):
+        # the bundled runtime procedures are part of the output: every block they open must be closed before the next header
+        for name, plines in T.split_procedures(out.rstrip("\n"))[:-1]:
+            e = T.block_errors(plines[1:] if name is not None else plines)
+            if e:
+                return f"bundled procedure {name}: {e}"
     for k, line in enumerate(lines):
         for kk, t in T.code_tokens(T.line_label(line)[1]):
             if kk == "id" and t in ("inf", "nan"):
@@ -916,6 +922,28 @@ def c05(case, impl):
     return None
 
 
+def _string_func_second_arg(body):
+    """the second argument of the first STRING$( … , … ) of a source line (parentheses may nest), or None"""
+    m = re.search(r"STRING\$ *\(", body)
+    if not m:
+        return None
+    depth, args, cur = 0, [], ""
+    for ch in body[m.end():]:
+        if ch == "(":
+            depth += 1
+        elif ch == ")":
+            if depth == 0:
+                args.append(cur)
+                return args[1] if len(args) == 2 else None
+            depth -= 1
+        elif ch == "," and depth == 0:
+            args.append(cur)
+            cur = ""
+            continue
+        cur += ch
+    return None
+
+
 def c05_classify(case, impl, why):
     text = case["text"]
     out = out_text(impl) or ""
@@ -945,8 +973,8 @@ def c05_classify(case, impl, why):
             return "varptr-argument-not-visited"
         if re.search(r"HCIRCLE[^:]*,,", body):
             return "hoisted-call-captured-by-default-colour"
-        ms = re.search(r"STRING\$ *\(([^,()]*),([^()]*)\)", body)
-        if ms and "ecb_string" in why and "arr_ST$" in out and not re.search(r"\$|\"", ms.group(2)):
+        second = _string_func_second_arg(body)
+        if second is not None and "ecb_string" in why and "arr_ST$" in out and not re.search(r"\$|\"", second):
             return "string-func-numeric-code"      # STRING$(n, <numeric code>) is read as the array ST$ (see C03)
     return None
 
